@@ -164,6 +164,24 @@ where
     }
 }
 
+#[cfg(feature = "verif-hooks")]
+impl<T, P, S, BIn, K> ConnectionPoolService<T, P, S, BIn, K>
+where
+    T: Transport,
+    P: Protocol<T::IO, BIn>,
+    P::Connection: PoolableConnection<BIn>,
+    BIn: Send + 'static,
+    K: pool::Key,
+{
+    /// Verification hook: a read-only view of the pool state (`None` without a pool).
+    pub fn verif_snapshot<R>(
+        &self,
+        f: impl Fn(&P::Connection) -> R,
+    ) -> Option<Vec<crate::verif::PoolOrigin<R>>> {
+        self.pool.as_ref().map(|pool| pool.verif_snapshot(f))
+    }
+}
+
 impl
     ConnectionPoolService<
         TlsTransport<TcpTransport>,
